@@ -55,4 +55,6 @@ Clauses(g, pre, e, post) ==
   \* whichever session id the frame names: no session of another owner changes (frames, i.e. e.m # 0, only)
   \cup (IF e.m # 0 /\ \E i \in Ids(pre) : pre.present[i] /\ e.m # g.owner[i] /\ Rec(pre, i) # Rec(post, i)
           THEN {"ForeignInert"} ELSE {})
+  \* ... nor its traffic counters (the harness reports the sessions of other owners whose byte / packet counters a frame moved)
+  \cup (IF e.m # 0 /\ Len(e.touched) > 0 THEN {"ForeignInert"} ELSE {})
 =============================================================================
